@@ -71,7 +71,9 @@ func runC04(w *World, r *Report) {
 						cc, ok := peel(v).(*ssa.Call)
 						return ok && isCallTo(cc, "ConnectionEdgeI).GetCondition") && edge != nil && cc.Call.Value == edge
 					}
-					isName := func(v ssa.Value) bool { return strings.HasSuffix(Path(v), "procIO.Name") || strings.HasSuffix(Path(v), ".Name") && strings.Contains(Path(v), "procIO") }
+					isName := func(v ssa.Value) bool {
+						return strings.HasSuffix(Path(v), "procIO.Name") || strings.HasSuffix(Path(v), ".Name") && strings.Contains(Path(v), "procIO")
+					}
 					if isCond(l) && isName(rr) || isCond(rr) && isName(l) {
 						cond = true
 					}
@@ -108,8 +110,12 @@ func runC04(w *World, r *Report) {
 		okH := len(gn) == 1
 		if okH {
 			cs := CondsOf(gn[0].Block())
-			a := condsHave(cs, true, func(v ssa.Value) bool { return isCallTo0(v, "StreamType).IsResponseType") && strings.Contains(Path(v), "procIO.Type") })
-			b := condsHave(cs, true, func(v ssa.Value) bool { return isCallTo0(v, "StreamType).IsRequestType") && strings.Contains(Path(v), "GetType(param:apiStream)") })
+			a := condsHave(cs, true, func(v ssa.Value) bool {
+				return isCallTo0(v, "StreamType).IsResponseType") && strings.Contains(Path(v), "procIO.Type")
+			})
+			b := condsHave(cs, true, func(v ssa.Value) bool {
+				return isCallTo0(v, "StreamType).IsRequestType") && strings.Contains(Path(v), "GetType(param:apiStream)")
+			})
 			key := strings.Contains(Path(gn[0].Common().Args[0]), "GetProcessorKey(") && strings.Contains(Path(gn[0].Common().Value), "GetResponseDirection(param:flow)")
 			// no edge is followed afterwards
 			follows := false
@@ -154,8 +160,12 @@ func runC04(w *World, r *Report) {
 				return false
 			})
 			cs := CondsOf(st.Block())
-			isReqSide := condsHave(cs, true, func(v ssa.Value) bool { return isCallTo0(v, "StreamType).IsRequestType") && strings.Contains(Path(v), "GetActionsType(") })
-			isRespSide := condsHave(cs, true, func(v ssa.Value) bool { return isCallTo0(v, "StreamType).IsResponseType") && strings.Contains(Path(v), "GetActionsType(") })
+			isReqSide := condsHave(cs, true, func(v ssa.Value) bool {
+				return isCallTo0(v, "StreamType).IsRequestType") && strings.Contains(Path(v), "GetActionsType(")
+			})
+			isRespSide := condsHave(cs, true, func(v ssa.Value) bool {
+				return isCallTo0(v, "StreamType).IsResponseType") && strings.Contains(Path(v), "GetActionsType(")
+			})
 			ok2 := false
 			switch what {
 			case "procIO.ReqAction":
